@@ -176,6 +176,9 @@ fn gen_entries(rng: &mut Rng, hostile: bool) -> Vec<Ent> {
             Ent { path: format!("{p}/out/decoy.txt"), kind: Kind::File("evil".into()) },
             Ent { path: format!("{p}/.cargo-ok"), kind: Kind::Symlink("../../../outside/decoy.txt".into()) },
             Ent { path: format!("{p}/./dot.rs"), kind: Kind::File("dot".into()) },
+            // something *below* the marker name: makes `.cargo-ok` a directory
+            Ent { path: format!("{p}/.cargo-ok/inner.txt"), kind: Kind::File("ok".into()) },
+            Ent { path: format!("{p}/.cargo-ok/"), kind: Kind::Dir },
             // the crate directory itself as an entry: a link out of the cache / to a sibling, a
             // plain file, a directory
             Ent { path: p.clone(), kind: Kind::Symlink("../../outside".into()) },
@@ -214,6 +217,9 @@ fn corpus() -> Vec<(Vec<Ent>, Option<usize>)> {
         // former findings (fixed by c2593c5): own marker + interruption; marker as a link out
         (with(vec![f(format!("{p}/.cargo-ok"), "ok")], true), Some(2)),
         (with(vec![l(format!("{p}/.cargo-ok"), "../../../outside/decoy.txt")], true), None),
+        // a directory named like the marker (an entry below it), then an interruption
+        (with(vec![f(format!("{p}/.cargo-ok/inner.txt"), "ok")], true), Some(2)),
+        (with(vec![f(format!("{p}/.cargo-ok/inner.txt"), "ok")], true), None),
         // a link out of the cache, then a file through it
         (with(vec![l(format!("{p}/out"), "../../../outside"), f(format!("{p}/out/decoy.txt"), "evil")], false), None),
         // the crate directory itself as an entry
